@@ -113,7 +113,8 @@ class C08(Prop):
         ver = rng.choice(["v1", "v2c", "v3"])
         agent = {"mib": [], "communities": [], "echo": True}
         if ver == "v3":
-            a, sess = v3_setup(rng, rng.choice(["noauth", "md5", "sha-aes", "md5-des"]), discover=False, ktypes=["localized"])
+            # (a session without engine id is used directly: its first operation runs the discovery itself)
+            a, sess = v3_setup(rng, rng.choice(["noauth", "md5", "sha-aes", "md5-des"]), discover=rng.random() < 0.3, ktypes=["localized"])
             agent.update(a)
             agent["time_window"] = False
         else:
@@ -142,7 +143,16 @@ class C08(Prop):
             strings += texts
             den = [lenient_parse(t) for t in texts]
             exs = run.exchanges(res)
-            sent = exs[0] if exs else None
+            # the session's own engine id discovery / time sync (empty Get requests) is not the request
+            prelim = [ex for ex in exs if run.wire_dec[(res["s"], ex["serial"])].get("ok") and run.wire_dec[(res["s"], ex["serial"])]["pdu"]["type"] == "get" and not run.wire_dec[(res["s"], ex["serial"])]["pdu"]["varbinds"]]
+            own = [ex for ex in exs if ex not in prelim]
+            sent = own[0] if own else None
+            if prelim:
+                run.sim.count("probe.discovery-before-request")
+                if any(a is None or not encodable(a) for a in den):
+                    bad = [t for t, a in zip(texts, den) if a is None or not encodable(a)]
+                    out.append(V("C08.sent-before-refusal", "%r has no OID denotation, yet %d discovery datagram(s) went out before it was refused" % (bad[0][:80], len(prelim)), op=op["op"]))
+                    continue
             if op["op"] == "walk":
                 run.sim.count("probe.via-walk")
             if op["op"] == "get_many":
